@@ -84,6 +84,21 @@ func genC12(r *sim.Rng, i int) *c12Case {
 			e.Hidden = r.Chance(1, 3)
 			c.Events = append(c.Events, e)
 		}
+		if r.Chance(1, 5) {
+			// one answer longer than the prompt search depth (a listing before the question): the
+			// result still holds the whole dialogue
+			k := r.Intn(len(c.Events))
+			var sb strings.Builder
+			nl := 25 + r.Intn(40)
+			for l := 0; l < nl; l++ {
+				fmt.Fprintf(&sb, "  interface GigabitEthernet%d/%d of event %d is affected\n", l/8, l%8, k)
+			}
+			c.Events[k].Step = sb.String() + c.Events[k].Step
+			c.Segs, c.DefSeg = nil, []int{0, 64, 700}[r.Intn(3)]
+			if c.DelayUS > 300 {
+				c.DelayUS = 300
+			}
+		}
 		if r.Chance(1, 3) {
 			c.Complete = []string{"prompt_pattern"}
 		} else if r.Chance(1, 2) {
@@ -226,12 +241,22 @@ func runC12Case(id string, c *c12Case) {
 			lines++
 		}
 		if cs.Oracle == "" && e == nil {
-			// whole dialogue: every step text the device sent appears in the result
+			// whole dialogue: every line of every step text the device sent appears in the result, in order
+			pos := 0
+		whole:
 			for k := 0; k < lines; k++ {
-				t := strings.TrimSpace(strings.Split(c.Events[k].Step, "\n")[0])
-				if !strings.Contains(r.Result, t) {
-					cs.Oracle = fmt.Sprintf("result %q lacks the device's text %q of event %d", r.Result, t, k)
-					cs.Sig = "C12:result-not-whole"
+				for _, ln := range strings.Split(c.Events[k].Step, "\n") {
+					t := strings.TrimSpace(ln)
+					if t == "" {
+						continue
+					}
+					at := strings.Index(r.Result[pos:], t)
+					if at < 0 {
+						cs.Oracle = fmt.Sprintf("result (%d bytes) lacks the device's line %q of event %d (or has it out of order)", len(r.Result), t, k)
+						cs.Sig = "C12:result-not-whole"
+						break whole
+					}
+					pos += at + len(t)
 				}
 			}
 		}
